@@ -46,6 +46,9 @@ type c03Scenario struct {
 	// Catch[i] (optional): vBucket i is streamed after a server-requested rollback; the position already reached is
 	// the seqno of its event Idx plus Delta (the library is told through observer.SetCatchup, as client.go does).
 	Catch []c03Catch `json:"catch,omitempty"`
+	// EndAt[i] (optional, >0): after its EndAt-th event the stream of vBucket i ends with a transient cause; the library
+	// requests it again and the server resumes after the requested position (events above it are sent again)
+	EndAt []int `json:"end_at,omitempty"`
 }
 
 type c03Catch struct {
@@ -110,6 +113,7 @@ func c03Exec(sc c03Scenario) (detail string, labels map[string]bool) {
 	defer within(20*time.Second, func() { st.Close(false) })
 
 	expect := make([][]*c03Expect, n)
+	ended := make([]string, n)
 	var wg sync.WaitGroup
 	panics := make([]any, n)
 	for i := 0; i < n; i++ {
@@ -188,7 +192,6 @@ func c03Exec(sc c03Scenario) (detail string, labels map[string]bool) {
 				}
 				if x.delivered {
 					labels["delivered"] = true
-					expect[i] = append(expect[i], x)
 				}
 			}
 			st.x = x
@@ -201,9 +204,20 @@ func c03Exec(sc c03Scenario) (detail string, labels map[string]bool) {
 			if reached != 0 {
 				o.SetCatchup(gocbcore.SeqNo(reached))
 			}
-			for _, p := range plan {
-				if p.marker != nil {
-					o.SnapshotMarker(models.DcpSnapshotMarker{VbID: vb, StartSeqNo: p.marker[0], EndSeqNo: p.marker[1]})
+			endAt := 0
+			if reached == 0 && i < len(sc.EndAt) && sc.EndAt[i] > 0 && len(plan) > 0 {
+				endAt = 1 + (sc.EndAt[i]-1)%len(plan)
+			}
+			feed := func(p step, remark bool) {
+				if p.marker != nil || (remark && p.x.ev.Kind != "adv" && p.x.ev.Kind != "oso") {
+					m := p.x.snap
+					if p.marker != nil {
+						m = *p.marker
+					}
+					o.SnapshotMarker(models.DcpSnapshotMarker{VbID: vb, StartSeqNo: m[0], EndSeqNo: m[1]})
+				}
+				if p.x.delivered {
+					expect[i] = append(expect[i], p.x)
 				}
 				e, seq := p.x.ev, p.x.seq
 				switch e.Kind {
@@ -221,9 +235,45 @@ func c03Exec(sc c03Scenario) (detail string, labels map[string]bool) {
 					feedEvent(o, vb, srvEvent{Seq: seq, Kind: e.Kind})
 				}
 			}
+			for idx, p := range plan {
+				feed(p, false)
+				if idx+1 != endAt {
+					continue
+				}
+				// the stream ends (transient): the library asks again, the server resumes after the requested position
+				nOpen := cl.openCountOf(vb)
+				o.End(models.DcpStreamEnd{VbID: vb}, gocbcore.ErrSocketClosed)
+				for t0 := time.Now(); cl.openCountOf(vb) == nOpen && time.Since(t0) < 10*time.Second; {
+					time.Sleep(200 * time.Microsecond)
+				}
+				if cl.openCountOf(vb) == nOpen {
+					ended[i] = fmt.Sprintf("vb %d: stream ended with a transient cause after seq %d and was not requested again", vb, p.x.seq)
+					return
+				}
+				var from uint64
+				for _, r := range cl.openLog() {
+					if r.Vb == vb {
+						from = r.Off.SeqNo
+					}
+				}
+				o = cl.observer(vb)
+				first := true
+				for _, q := range plan[:idx+1] {
+					if q.x.ev.Kind == "oso" || q.x.seq <= from {
+						continue
+					}
+					feed(q, first)
+					first = false
+				}
+			}
 		}(i)
 	}
 	wg.Wait()
+	for _, d := range ended {
+		if d != "" {
+			return d, labels
+		}
+	}
 	for i, p := range panics {
 		if p != nil {
 			return fmt.Sprintf("vb %d: feeding a valid server history panicked: %v", sc.Lo+i, p), labels
@@ -412,6 +462,11 @@ func c03Gen(t *rapid.T) c03Scenario {
 			c = c03Catch{On: true, Idx: rapid.IntRange(0, len(evs)-1).Draw(t, "catchidx"), Delta: rapid.SampledFrom([]int{0, 0, 0, -1, 1}).Draw(t, "catchdelta")}
 		}
 		sc.Catch = append(sc.Catch, c)
+		e := 0
+		if !c.On && len(evs) > 0 && rapid.IntRange(0, 3).Draw(t, "ends") == 0 {
+			e = rapid.IntRange(1, len(evs)).Draw(t, "endat")
+		}
+		sc.EndAt = append(sc.EndAt, e)
 	}
 	return sc
 }
@@ -424,6 +479,11 @@ func TestC03_Delivery(t *testing.T) {
 		journalDone()
 		if d != "" {
 			violation(rt, "C03", "c03", sc, "%s", d)
+		}
+		for i, e := range sc.EndAt {
+			if e > 0 && i < len(sc.Vbs) && len(sc.Vbs[i]) > 0 {
+				labels["stream_ended_and_requested_again"] = true
+			}
 		}
 		nt := len(sc.Vbs) >= 2 && labels["delivered"] && (labels["filtered_reserved_key"] || labels["filtered_skip_until"]) && labels["multi_snapshot"]
 		record("C03", sc, nt, append(labelList(labels), "cases")...)
